@@ -454,6 +454,10 @@ impl BytecodeInterpreter {
             } => {
                 self.vm.begin_function(name);
 
+                // Register the function before compiling its body: the body may refer to
+                // the function itself as a value (`fn f(xs) = … map(f, …)`).
+                self.functions.insert(name.to_compact_string(), false);
+
                 self.locals.push(vec![]);
 
                 let current_depth = self.current_depth();
@@ -474,8 +478,6 @@ impl BytecodeInterpreter {
                 self.locals.pop();
 
                 self.vm.end_function();
-
-                self.functions.insert(name.to_compact_string(), false);
             }
             Statement::DefineFunction {
                 function_name: name,
